@@ -16,29 +16,33 @@ def runs(tier):
     q = tier == 'quick'
     base = dict(MaxD=3, DimsR={1, 2}, DimsC={1, 2}, RanksS={1, 2}, Seeds={1}, MaxDepth=1, EmitAll=False,
                 Vias={'matmul'}, QL=2, MaxDB=2, OWs={False, True}, Lean=False, IslLevel=0)
-    kp = {('real', 'real'), ('complex', 'real')}
     out = []
     ow = {False} if q else {False, True}
     out.append(dict(name='td2', constants=dict(base, MaxD=2, MaxDB=2, Scenarios={'td'}, Ops={'Tensordot'}, OWs=ow,
-                                               RanksS={2} if q else {1, 2},
-                                               KindPairs={('real', 'complex')} if q else kp | {('real', 'complex')})))
-    out.append(dict(name='td3', constants=dict(base, MaxD=3, MaxDB=3, DimsC={1}, RanksS={2} if q else {1, 2}, OWs=ow,
+                                               RanksS={2} if q else {1, 2}, KindPairs={('real', 'complex')})))
+    out.append(dict(name='td3', constants=dict(base, MaxD=3, MaxDB=3, DimsC={1}, RanksS={2}, OWs=ow,
                                                Scenarios={'td'}, Ops={'Tensordot'}, KindPairs={('real', 'complex')})))
     out.append(dict(name='tdlong', constants=dict(base, MaxD=1 if q else 2, MaxDB=4, DimsR={2, 3}, DimsC={1},
-                                                  RanksS={2}, Scenarios={'td'}, OWs=ow,
+                                                  RanksS={2}, Scenarios={'td'}, OWs={False},
                                                   Ops={'Tensordot'}, KindPairs={('real', 'real')})))
     out.append(dict(name='rtd', constants=dict(base, MaxD=2 if q else 3, Scenarios={'open'}, Ops={'RankTensordot'},
                                                KindPairs={('complex', 'complex')} if q else {('real', 'real'), ('complex', 'complex')})))
-    out.append(dict(name='cat', constants=dict(base, MaxD=2 if q else 3, DimsC={1} if q else {1, 2}, Scenarios={'pair'},
-                                               Ops={'Concatenate'}, OWs=ow, KindPairs={('complex', 'real')} if q else kp)))
-    out.append(dict(name='catop', constants=dict(base, MaxD=1 if q else 2, Scenarios={'openpair'},
+    out.append(dict(name='cat', constants=dict(base, MaxD=2, DimsC={1} if q else {1, 2}, Scenarios={'pair'},
+                                               Ops={'Concatenate'}, OWs=ow, KindPairs={('complex', 'real')})))
+    out.append(dict(name='catop', constants=dict(base, MaxD=1 if q else 2, DimsC={1, 2} if q else {1}, Scenarios={'openpair'},
                                                  Ops={'Concatenate'}, OWs=ow, KindPairs={('real', 'real')})))
-    out.append(dict(name='struct', constants=dict(base, MaxD=3 if q else 4, Scenarios={'single'},
+    out.append(dict(name='struct', constants=dict(base, MaxD=3, Seeds={1} if q else {1, 2}, Scenarios={'single'},
                                                   Ops={'RankTranspose', 'Diag', 'Squeeze'},
                                                   KindPairs={('real', 'real'), ('complex', 'complex')})))
+    if not q:
+        out.append(dict(name='struct4', constants=dict(base, MaxD=4, DimsC={1}, Scenarios={'single'},
+                                                       Ops={'RankTranspose', 'Diag', 'Squeeze'}, KindPairs={('complex', 'complex')})))
     out.append(dict(name='qtt', constants=dict(base, MaxD=2, DimsR={4, 6}, DimsC={1, 4}, Scenarios={'single'},
-                                               Ops={'TT2QTT'}, QL=2 if q else 3, KindPairs={('real', 'real'), ('complex', 'complex')})))
-    out.append(dict(name='qttrt', constants=dict(base, MaxD=2, DimsR={4, 6} if not q else {4}, DimsC={1} if q else {1, 2},
+                                               Ops={'TT2QTT'}, QL=2, KindPairs={('real', 'real'), ('complex', 'complex')})))
+    if not q:
+        out.append(dict(name='qtt3', constants=dict(base, MaxD=1, DimsR={4, 6, 8}, DimsC={1, 4}, Scenarios={'single'},
+                                                    Ops={'TT2QTT'}, QL=3, KindPairs={('real', 'real')})))
+    out.append(dict(name='qttrt', constants=dict(base, MaxD=2, DimsR={4} if q else {4, 6}, DimsC={1},
                                                  Scenarios={'single'}, Ops={'TT2QTT', 'QTT2TT'}, MaxDepth=2,
                                                  KindPairs={('complex', 'complex')})))
     out.append(dict(name='bc', nshards=1, constants=dict(base, RanksS={1, 2} if q else {1, 2, 3}, Scenarios={'ctor'},
